@@ -96,9 +96,18 @@ func (H) Generate(r *simrt.Rand, tier string) any {
 			s.Preput = 8 + r.Intn(40)
 			cycles = 12
 		}
+		minCycles := 1
+		if r.Intn(24) == 0 {
+			// a pool with a bounded front end (a ring, a free list with a cap) behaves
+			// differently once that is full and its positions come round again: hundreds
+			// of idle items, and enough Get/Put cycles to go round once
+			s.Preput = 100 + r.Intn(200)
+			cycles = 25
+			minCycles = 35
+		}
 		for i := 0; i < 2+r.Intn(3); i++ {
 			var c []Op
-			for j := 0; j < 1+r.Intn(cycles); j++ {
+			for j := 0; j < minCycles+r.Intn(cycles); j++ {
 				c = append(c, Op{K: "getput", Use: r.Intn(3)})
 			}
 			s.Clients = append(s.Clients, c)
